@@ -979,6 +979,18 @@ impl Model {
     }
 
     pub fn plan(&self, step: &Step) -> Plan {
+        // a stale merged-text handle as old child, one of whose pieces has left the receiver: whatever else is
+        // true of the call, it must fail and (like every failed call) change nothing
+        if let Op::ReplaceChild { recv, new, old, .. } = &step.op {
+            if let (Some(MSlot::Run(r)), Some(rm), false) = (self.slot(*old), self.node_slot(*recv), self.stale(*recv) || self.stale(*new)) {
+                let new_is_piece = self.node_slot(*new).map(|n| r.contains(&n)).unwrap_or(true);
+                if self.stale(*old) && !new_is_piece && !r.is_empty() && r.iter().any(|p| self.nodes[*p].parent != Some(rm)) {
+                    let mut p = Plan::fail(vec![ErrClass::NotFound, ErrClass::Hierarchy, ErrClass::WrongDoc, ErrClass::NotSupported]);
+                    p.illegal = true;
+                    return p;
+                }
+            }
+        }
         if Model::step_slots(step).iter().any(|s| self.stale(*s)) {
             return Plan::skip();
         }
